@@ -95,7 +95,13 @@ func mutateInsert(current, value interface{}) (interface{}, interface{}) {
 	}
 	if vc.Kind() == reflect.Map && vv.Kind() == reflect.Map {
 		if vc.IsNil() && vv.Len() > 0 {
-			return value, value
+			// the difference must not share memory with the new value: both
+			// are modified in place by later mutations of the same column
+			diff := reflect.MakeMapWithSize(vv.Type(), vv.Len())
+			for iter := vv.MapRange(); iter.Next(); {
+				diff.SetMapIndex(iter.Key(), iter.Value())
+			}
+			return value, diff.Interface()
 		}
 		diff := reflect.MakeMap(vc.Type())
 		iter := vv.MapRange()
